@@ -14,8 +14,9 @@
  * advanced by m; "in order, no loss, no duplication" is the statement that the
  * octet of absolute stream position g_a (arbitrary) sits at buf[g_a - p0], and
  * that the sink driver received at absolute position g_b (arbitrary) the octet
- * buf[g_b - p0].  Positions are taken modulo 2^64, so no precondition on them
- * is needed.
+ * buf[g_b - p0].  Positions never wrap (assumption of the stubs: a stream is
+ * shorter than 2^64 octets), which the contracts pass on as "the position has
+ * not decreased"; no precondition on positions is needed.
  *
  * Preconditions are only what a caller can establish: a Source / Sink set up
  * with the stub drivers and their cookie (chunk_source_init(&s,
